@@ -467,6 +467,67 @@ theorem total_90 (s : Text) : F90.parse s ≠ .panic := by
   unfold F90.parse; simp only; repeat' split
   all_goals first | (rename_i hh; exact absurd hh (hcur _)) | simp
 
+theorem total_53B (s : Text) : F53B.parse s ≠ .panic := by
+  unfold F53B.parse; simp only
+  repeat' split
+  all_goals simp
+
+theorem total_53D (s : Text) : F53D.parse s ≠ .panic := by
+  unfold F53D.parse; simp only
+  repeat' split
+  all_goals first | (rename_i hh; exact absurd hh (nameAddr_no_panic _ _)) | simp
+
+theorem total_25P (s : Text) : F25P.parse s ≠ .panic := by
+  have hacc : ∀ t, parseAccount35 t ≠ .panic := by
+    intro t; unfold parseAccount35; repeat' split
+    all_goals simp
+  unfold F25P.parse; simp only
+  repeat' split
+  all_goals first
+    | (rename_i hh; first | exact absurd hh (parseBic_no_panic _) | exact absurd hh (hacc _))
+    | simp
+
+theorem numberedLines_no_panic (keep : Bool) (ls : List Text) (k : Nat) : numberedLines keep ls k ≠ .panic := by
+  induction ls generalizing k with
+  | nil => simp [numberedLines]
+  | cons l r ih =>
+    unfold numberedLines
+    repeat' split
+    all_goals first | (rename_i hh; exact absurd hh (ih _)) | simp
+
+theorem total_50A (s : Text) : F50A.parse s ≠ .panic := by
+  unfold F50A.parse
+  repeat' split
+  all_goals first | (rename_i hh; exact absurd hh (numberedLines_no_panic _ _ _)) | simp
+
+theorem total_59F (s : Text) : F59F.parse s ≠ .panic := by
+  unfold F59F.parse
+  repeat' split
+  all_goals first
+    | (rename_i hh; first | exact absurd hh (numberedLines_no_panic _ _ _) | exact absurd hh (pid_no_panic _))
+    | simp
+
+theorem total_50F (s : Text) : F50F.parse s ≠ .panic := by
+  unfold F50F.parse
+  simp only
+  split; · simp
+  split; · simp
+  split; · simp
+  split; · simp
+  split; · simp
+  split
+  · simp
+  · rename_i hh; exact absurd hh (parseBic_no_panic _)
+  · split
+    · simp
+    · rename_i hh
+      split at hh
+      · repeat' split at hh
+        all_goals simp at hh
+      · simp at hh
+    · repeat' split
+      all_goals simp
+
 /-! ### every field model of the registry at once
 
 `registry` is the table the driver answers the field correspondence stream from (one entry per modelled field type of
@@ -499,10 +560,12 @@ theorem registry_total : ∀ e ∈ registry, ∀ s : Text, e.2 s ≠ .panic := b
       | exact (customer_fields_no_panic s).2.2.1 | exact (customer_fields_no_panic s).2.2.2.1
       | exact (customer_fields_no_panic s).2.2.2.2.1 | exact (customer_fields_no_panic s).2.2.2.2.2.1
       | exact (customer_fields_no_panic s).2.2.2.2.2.2
-      | exact parseBic_no_panic s | exact total_51A s | exact total_77T s)
+      | exact parseBic_no_panic s | exact total_51A s | exact total_77T s
+      | exact total_53B s | exact total_53D s | exact total_25P s
+      | exact total_50A s | exact total_59F s | exact total_50F s)
 
 /-- the count the statement is about: every entry of the registry, none left out -/
-example : registry.length = 63 := by decide
+example : registry.length = 69 := by decide
 
 /-- the amount-bearing entries (`registryPartial`: a model answer only inside the region where f64 and exact decimals
 agree) — whenever the model answers, the answer is not `panic` -/
